@@ -131,6 +131,19 @@ Definition prog_ok (x : option (list Qc)) (y : list Qc) (e : option exn) (steps 
                 c["y"] = c["y"][:len(c["x"])]
                 c["int_x"] = True
             cases.append(c)
+        if self.queries or self.invalid:
+            # zero as a bound (falsy in Python): on a series straddling 0, and as a value that is not a sample
+            zx = [-3.0, -2.0, -1.0, 0.0, 1.0, 2.0, 3.0]
+            zy = [4.0, 7.5, 1.25, 9.0, 3.5, 6.0, 2.0]
+            qs = [{"op": "slice_by_value", "start": 0.0, "stop": 2.0, "step": 1}, {"op": "slice_by_value", "start": None, "stop": 0.0, "step": 1},
+                  {"op": "slice_by_value", "start": 0.0, "stop": None, "step": 2}, {"op": "slice_by_value", "start": -1.0, "stop": 0.0, "step": 1},
+                  {"op": "slice_by_value", "start": 0.0, "stop": 0.0, "step": 1}, {"op": "slice_by_index", "start": 0, "stop": 0, "step": 1},
+                  {"op": "truncate_by_value", "l": 0.0, "r": 2.0, "lr": False, "rr": False}, {"op": "slice_by_value", "start": 0.0, "stop": 2.0, "step": 1}]
+            cases.append({"x": zx, "y": zy, "script": qs, "seed": 1, "len": len(qs), "pool": [], "as_list": False, "int_x": False, "x_none": False, "invalid": False})
+            hx = [-1.5, -0.5, 0.5, 1.5, 2.5]
+            bad = [{"op": "slice_by_value", "start": 0.0, "stop": 1.5, "step": 1, "invalid": "slice_value_absent"},
+                   {"op": "slice_by_value", "start": -0.5, "stop": 0.0, "step": 1, "invalid": "slice_value_absent"}]
+            cases.append({"x": hx, "y": zy[:5], "script": bad, "seed": 1, "len": 2, "pool": [], "as_list": False, "int_x": False, "x_none": False, "invalid": False})
         if self.exhaustive_domain:
             # exhaustively all sequences up to length L over a fixed argument alphabet (DESIGN C08)
             alpha = self.alphabet()
